@@ -454,6 +454,10 @@ def run(facts, rep, tier):
     rep.rule("C06-R8", "= C01-R15: no link changes its destination in a table cell (dest_url <- url, title <- title, position by position).")
     from . import writer_payload
     writer_payload.rule_writer_payload(facts, rep, "C06-R8")
+    rep.rule("C06-R9", "= C01-R1 (stored-verbatim): the reader stores a link's destination as the source has it - no fragment, case or prefix is cut off on the way into the model, so formatting "
+             "cannot rewrite where a link points.")
+    from . import c01 as _c01
+    _c01.rule_r1(facts, _c01._Only(rep, "stored-verbatim"), "C06-R9")
 
 
 class _MultiOnly:
